@@ -193,6 +193,31 @@ def run(ctx):
         if not whole:
             continue
         nre += 1
+        # a rebuild that enumerates the qubits of a definition by hand (instead of asking get_qubits of the listed
+        # instruction) must read every Qubit-holding field of that definition type
+        fam = [f] + [g_ for g_ in db.fns if g_.path.startswith(f.path + "::{closure")]
+        for g_ in fam:
+            for pi in range(1, g_.argc + 1):
+                ty = g_.local_ty(pi)
+                while ty["k"] in ("ref", "ptr"):
+                    ty = db.types[ty["t"]]
+                if ty["k"] == "tuple" and ty.get("ts"):
+                    continue
+                if ty["k"] != "adt" or ty["path"] in (PROGRAM, INSTRUCTION) or ty["path"] not in db.adts:
+                    continue
+                adt_ = db.adts[ty["path"]]
+                if adt_["kind"] != "Struct" or g_ is f and pi == 1:
+                    continue
+                required = sorted(fl["n"] for fl in adt_["variants"][0]["fields"] if db.ty_contains(fl["t"], qpred))
+                if not required:
+                    continue
+                reads_ = k2.deep_read_paths(db, g_, pi, 2)
+                whole_ = any(r == () for r in reads_) and not any(r for r in reads_)
+                missing = [] if whole_ else [x for x in required if not any(r and r[0] == x for r in reads_)]
+                key = "K2|rebuild-element-coverage|%s" % ty["path"].rsplit("::", 1)[-1]
+                res.site(key, True, {"element_type": ty["path"], "qubit_holding_fields": required, "read": sorted({r[0] for r in reads_ if r}), "verdict": "ok" if not missing else "VIOLATION"})
+                if missing:
+                    res.find(key, g_.loc(), "%s collects the qubits of a %s by hand but never reads its field(s) %s, which can hold qubits" % (f.path, ty["path"].rsplit("::", 1)[-1], missing), "`DEFCAL MEASURE 0 addr: FENCE 7` followed by anything that rebuilds the cache: qubit 7 is dropped from the used-qubit set")
         # cache-writing sites of f and the stores whose content flows into the written value
         from qv.engine import fn_expr_rvalue, walk_expr
 
